@@ -173,6 +173,10 @@ type G struct {
 	depth int
 	n     int
 	want  string // directed generation: struct type that must occur (C05)
+	// lastDate: the instant of the date drawn last (one date in four repeats it, usually in another location:
+	// equal values next to each other are what value-keyed shortcuts trip over)
+	lastDate    int64
+	hasLastDate bool
 }
 
 func (g *G) label(l ...string) {
@@ -630,7 +634,14 @@ func (g *G) fillValue(v reflect.Value, optional bool) {
 	defer func() { g.depth-- }()
 	switch t {
 	case tTime:
-		v.Set(reflect.ValueOf(InZone(time.Unix(DateSec(g.T, g.lbl("date"), g.O.TextSafe), 0), rapid.IntRange(0, 79).Draw(g.T, g.lbl("zone")))))
+		var sec int64
+		if g.hasLastDate && rapid.IntRange(0, 3).Draw(g.T, g.lbl("samedate")) == 0 {
+			sec = g.lastDate
+		} else {
+			sec = DateSec(g.T, g.lbl("date"), g.O.TextSafe)
+		}
+		g.lastDate, g.hasLastDate = sec, true
+		v.Set(reflect.ValueOf(InZone(time.Unix(sec, 0), rapid.IntRange(0, 79).Draw(g.T, g.lbl("zone")))))
 		return
 	case tDuration:
 		v.SetInt(IntervalSec(g.T, g.lbl("ival")) * int64(time.Second))
